@@ -9,7 +9,7 @@ open Cassis.TS Cassis.Traverse Cassis.Lex
 
 /-- the range of `f` is not a collection in any of the senses the writer tests -/
 structure NoColl (K : Consts) (ts : TypeSystem) (f : Feature) : Prop where
-  res : f.reserved = false
+  res : ResOk f
   n1 : f.name ≠ "xmiID"
   n2 : f.name ≠ "type"
   pa : isPrimitiveArray K f.range = false
@@ -32,7 +32,7 @@ theorem renderFeature_int (K : Consts) (ts : TypeSystem) (cass : List Cas) (H : 
     (hns : f.name ≠ "sofa") (hr : isIntRange f.range = true) (hp : isPrimitive K ts f.range = true)
     (hann : isAnn = true → ∃ ci vn view, alistGet? o.slots "sofa" = some (.sofa ci vn) ∧
        (cass[ci]?).bind (fun c => Cas.getViewRec c vn) = some view) :
-    renderFeature K ts cass H a isAnn f = .ok ([(f.name, showInt (extInt cass isAnn o f.name i))], []) := by
+    renderFeature K ts cass H a isAnn f = .ok ([(xmlName f, showInt (extInt cass isAnn o f.name i))], []) := by
   have hs : ∀ n, slot H a n = alistGet? o.slots n := by
     intro n; unfold slot Traverse.slot; rw [ho]; rfl
   have hb : f.range ≠ "uima.cas.Boolean" ∧ f.range ≠ "uima.cas.Double" ∧ f.range ≠ "uima.cas.Float" := by
@@ -42,7 +42,7 @@ theorem renderFeature_int (K : Consts) (ts : TypeSystem) (cass : List Cas) (H : 
   have hfa : (f.range == FS_ARRAY) = false := by simp [nc.fa]
   have hfl : (f.range == FS_LIST) = false := by simp [nc.fl]
   unfold renderFeature
-  simp only [beq_iff_eq, Bool.or_eq_true, nc.n1, nc.n2, or_self, reduceCtorEq, Bool.false_eq_true, if_false, hs, hv, Option.getD_some, nc.res,
+  simp only [beq_iff_eq, Bool.or_eq_true, nc.n1, nc.n2, or_self, reduceCtorEq, Bool.false_eq_true, if_false, hs, hv, Option.getD_some, xmlName_def, xmlName_begin f nc.res, xmlName_end f nc.res, xmlName_sofa f nc.res,
     nc.sa, nc.sl, nc.pa, nc.pl, hfa, hfl, Bool.false_and, hns, hb.1, hb.2.1, hb.2.2, hp, if_true]
   unfold extInt
   by_cases hA : (isAnn && (f.name == "begin" || f.name == "end")) = true
@@ -76,7 +76,7 @@ theorem renderFeature_str (K : Consts) (ts : TypeSystem) (cass : List Cas) (H : 
     (hns : f.name ≠ "sofa") (hr : f.range = "uima.cas.String") (hp : isPrimitive K ts f.range = true)
     (hann : isAnn = true → ∃ ci vn view, alistGet? o.slots "sofa" = some (.sofa ci vn) ∧
        (cass[ci]?).bind (fun c => Cas.getViewRec c vn) = some view) :
-    renderFeature K ts cass H a isAnn f = .ok ([(f.name, x)], []) := by
+    renderFeature K ts cass H a isAnn f = .ok ([(xmlName f, x)], []) := by
   have hs : ∀ n, slot H a n = alistGet? o.slots n := by
     intro n; unfold slot Traverse.slot; rw [ho]; rfl
   have hb : f.range ≠ "uima.cas.Boolean" ∧ f.range ≠ "uima.cas.Double" ∧ f.range ≠ "uima.cas.Float" := by
@@ -84,7 +84,7 @@ theorem renderFeature_str (K : Consts) (ts : TypeSystem) (cass : List Cas) (H : 
   have hfa : (f.range == FS_ARRAY) = false := by simp [nc.fa]
   have hfl : (f.range == FS_LIST) = false := by simp [nc.fl]
   unfold renderFeature
-  simp only [beq_iff_eq, Bool.or_eq_true, nc.n1, nc.n2, or_self, reduceCtorEq, Bool.false_eq_true, if_false, hs, hv, Option.getD_some, nc.res,
+  simp only [beq_iff_eq, Bool.or_eq_true, nc.n1, nc.n2, or_self, reduceCtorEq, Bool.false_eq_true, if_false, hs, hv, Option.getD_some, xmlName_def, xmlName_begin f nc.res, xmlName_end f nc.res, xmlName_sofa f nc.res,
     nc.sa, nc.sl, nc.pa, nc.pl, hfa, hfl, Bool.false_and, hns, hb.1, hb.2.1, hb.2.2, hp, if_true]
   flat_tail hann with rfl
 
@@ -94,14 +94,14 @@ theorem renderFeature_bool (K : Consts) (ts : TypeSystem) (cass : List Cas) (H :
     (hns : f.name ≠ "sofa") (hr : f.range = "uima.cas.Boolean")
     (hann : isAnn = true → ∃ ci vn view, alistGet? o.slots "sofa" = some (.sofa ci vn) ∧
        (cass[ci]?).bind (fun c => Cas.getViewRec c vn) = some view) :
-    renderFeature K ts cass H a isAnn f = .ok ([(f.name, showBool x)], []) := by
+    renderFeature K ts cass H a isAnn f = .ok ([(xmlName f, showBool x)], []) := by
   have hs : ∀ n, slot H a n = alistGet? o.slots n := by
     intro n; unfold slot Traverse.slot; rw [ho]; rfl
   have hb : (f.range == "uima.cas.Boolean") = true := by rw [hr]; rfl
   have hfa : (f.range == FS_ARRAY) = false := by simp [nc.fa]
   have hfl : (f.range == FS_LIST) = false := by simp [nc.fl]
   unfold renderFeature
-  simp only [hb, beq_iff_eq, Bool.or_eq_true, nc.n1, nc.n2, or_self, reduceCtorEq, Bool.false_eq_true, if_false, hs, hv, Option.getD_some, nc.res,
+  simp only [hb, beq_iff_eq, Bool.or_eq_true, nc.n1, nc.n2, or_self, reduceCtorEq, Bool.false_eq_true, if_false, hs, hv, Option.getD_some, xmlName_def, xmlName_begin f nc.res, xmlName_end f nc.res, xmlName_sofa f nc.res,
     nc.sa, nc.sl, nc.pa, nc.pl, hfa, hfl, Bool.false_and, hns, if_true]
   flat_tail hann with rfl
 
@@ -111,7 +111,7 @@ theorem renderFeature_float (K : Consts) (ts : TypeSystem) (cass : List Cas) (H 
     (hns : f.name ≠ "sofa") (hr : f.range = "uima.cas.Float" ∨ f.range = "uima.cas.Double")
     (hann : isAnn = true → ∃ ci vn view, alistGet? o.slots "sofa" = some (.sofa ci vn) ∧
        (cass[ci]?).bind (fun c => Cas.getViewRec c vn) = some view) :
-    renderFeature K ts cass H a isAnn f = .ok ([(f.name, x)], []) := by
+    renderFeature K ts cass H a isAnn f = .ok ([(xmlName f, x)], []) := by
   have hs : ∀ n, slot H a n = alistGet? o.slots n := by
     intro n; unfold slot Traverse.slot; rw [ho]; rfl
   have hb : (f.range == "uima.cas.Boolean") = false := by
@@ -121,7 +121,7 @@ theorem renderFeature_float (K : Consts) (ts : TypeSystem) (cass : List Cas) (H 
   have hfa : (f.range == FS_ARRAY) = false := by simp [nc.fa]
   have hfl : (f.range == FS_LIST) = false := by simp [nc.fl]
   unfold renderFeature
-  simp only [hb, hb2, beq_iff_eq, Bool.or_eq_true, nc.n1, nc.n2, or_self, reduceCtorEq, Bool.false_eq_true, if_false, hs, hv, Option.getD_some, nc.res,
+  simp only [hb, hb2, beq_iff_eq, Bool.or_eq_true, nc.n1, nc.n2, or_self, reduceCtorEq, Bool.false_eq_true, if_false, hs, hv, Option.getD_some, xmlName_def, xmlName_begin f nc.res, xmlName_end f nc.res, xmlName_sofa f nc.res,
     nc.sa, nc.sl, nc.pa, nc.pl, hfa, hfl, Bool.false_and, hns, if_true]
   flat_tail hann with rfl
 
@@ -132,7 +132,7 @@ theorem renderFeature_ref (K : Consts) (ts : TypeSystem) (cass : List Cas) (H : 
     (hb : f.range ≠ "uima.cas.Boolean" ∧ f.range ≠ "uima.cas.Double" ∧ f.range ≠ "uima.cas.Float")
     (hann : isAnn = true → ∃ ci vn view, alistGet? o.slots "sofa" = some (.sofa ci vn) ∧
        (cass[ci]?).bind (fun c => Cas.getViewRec c vn) = some view) :
-    renderFeature K ts cass H a isAnn f = .ok ([(f.name, showInt x)], []) := by
+    renderFeature K ts cass H a isAnn f = .ok ([(xmlName f, showInt x)], []) := by
   have hs : ∀ n, slot H a n = alistGet? o.slots n := by
     intro n; unfold slot Traverse.slot; rw [ho]; rfl
   have hxs : xidStr H b = .ok (showInt x) := by
@@ -148,7 +148,7 @@ theorem renderFeature_ref (K : Consts) (ts : TypeSystem) (cass : List Cas) (H : 
   have hfa : (f.range == FS_ARRAY) = false := by simp [nc.fa]
   have hfl : (f.range == FS_LIST) = false := by simp [nc.fl]
   unfold renderFeature
-  simp only [beq_iff_eq, Bool.or_eq_true, nc.n1, nc.n2, or_self, reduceCtorEq, Bool.false_eq_true, if_false, hs, hv, Option.getD_some, nc.res,
+  simp only [beq_iff_eq, Bool.or_eq_true, nc.n1, nc.n2, or_self, reduceCtorEq, Bool.false_eq_true, if_false, hs, hv, Option.getD_some, xmlName_def, xmlName_begin f nc.res, xmlName_end f nc.res, xmlName_sofa f nc.res,
     nc.sa, nc.sl, nc.pa, nc.pl, hfa, hfl, Bool.false_and, hns, hb.1, hb.2.1, hb.2.2, hp]
   flat_tail hann with (simp only [pure, Except.pure, bind, Except.bind, hxs])
 
@@ -159,14 +159,14 @@ theorem renderFeature_sofa (K : Consts) (ts : TypeSystem) (cass : List Cas) (H :
     (hns : f.name = "sofa")
     (hann : isAnn = true → ∃ ci vn view, alistGet? o.slots "sofa" = some (.sofa ci vn) ∧
        (cass[ci]?).bind (fun c => Cas.getViewRec c vn) = some view) :
-    renderFeature K ts cass H a isAnn f = .ok ([(f.name, showInt view0.sofa.xid)], []) := by
+    renderFeature K ts cass H a isAnn f = .ok ([(xmlName f, showInt view0.sofa.xid)], []) := by
   have hs : ∀ n, slot H a n = alistGet? o.slots n := by
     intro n; unfold slot Traverse.slot; rw [ho]; rfl
   have hfa : (f.range == FS_ARRAY) = false := by simp [nc.fa]
   have hfl : (f.range == FS_LIST) = false := by simp [nc.fl]
   have hsn : (f.name == "sofa") = true := by rw [hns]; rfl
   unfold renderFeature
-  simp only [hsn, beq_iff_eq, Bool.or_eq_true, nc.n1, nc.n2, or_self, reduceCtorEq, Bool.false_eq_true, if_false, hs, hv, Option.getD_some, nc.res,
+  simp only [hsn, beq_iff_eq, Bool.or_eq_true, nc.n1, nc.n2, or_self, reduceCtorEq, Bool.false_eq_true, if_false, hs, hv, Option.getD_some, xmlName_def, xmlName_begin f nc.res, xmlName_end f nc.res, xmlName_sofa f nc.res,
     nc.sa, nc.sl, nc.pa, nc.pl, hfa, hfl, Bool.false_and, if_true]
   flat_tail hann with (simp only [pure, Except.pure, bind, Except.bind, hview])
 
@@ -185,7 +185,7 @@ theorem renderFeature_flat (K : Consts) (ts : TypeSystem) (cass : List Cas) (c :
     (hf : FlatFeat K ts c ci H isAnn o f) (hann : AnnSofa cass isAnn o) :
     renderFeature K ts cass H a isAnn f =
       .ok ((match flatTok cass H isAnn o f.name ((alistGet? o.slots f.name).getD .none) with
-            | some s => [(f.name, s)]
+            | some s => [(xmlName f, s)]
             | none => []), []) := by
   have nc := hf.noColl
   obtain ⟨v, hv, hcase⟩ := hf.2.2.2.2.2.2.2.2.2.2.2
@@ -193,7 +193,7 @@ theorem renderFeature_flat (K : Consts) (ts : TypeSystem) (cass : List Cas) (c :
     intro n; unfold slot Traverse.slot; rw [ho]; rfl
   rw [hv, Option.getD_some]
   have hnone : v = .none → renderFeature K ts cass H a isAnn f =
-      .ok ((match flatTok cass H isAnn o f.name v with | some s => [(f.name, s)] | none => []), []) := by
+      .ok ((match flatTok cass H isAnn o f.name v with | some s => [(xmlName f, s)] | none => []), []) := by
     intro h; subst h
     rw [renderFeature_none K ts cass H a isAnn f nc.n1 nc.n2 (by rw [hs, hv]; rfl)]
     rfl
@@ -226,7 +226,7 @@ theorem renderFeature_flat (K : Consts) (ts : TypeSystem) (cass : List Cas) (c :
 theorem renderFeatures_flat (K : Consts) (ts : TypeSystem) (cass : List Cas) (c : Cas) (ci : Nat) (H : Heap) (a : Nat)
     (isAnn : Bool) (o : Obj) (hc : cass[ci]? = some c) (ho : H[a]? = some o) (hann : AnnSofa cass isAnn o) :
     ∀ (fs : List Feature), (∀ f ∈ fs, FlatFeat K ts c ci H isAnn o f) →
-    renderFeatures K ts cass H a isAnn fs = .ok (flatAttrs cass H isAnn o fs, [])
+    renderFeatures K ts cass H a isAnn fs = .ok (flatAttrsW cass H isAnn o fs, [])
   | [], _ => rfl
   | f :: fs, h => by
     rw [renderFeatures, renderFeature_flat K ts cass c ci H a isAnn f o hc ho (h f List.mem_cons_self) hann,
